@@ -357,6 +357,7 @@ def plan(tier, seed):
     q = tier == "quick"
     items = [("bfs", i, 4 if q else 5) for i in range(len(IDENTS))]
     items += [("rand", i, 30 if q else 300) for i in range(32 if q else 200)]
+    items += [("activate", i, 0) for i in range(4)]
     # near misses of the two multi-frame sequences (complete: all single and double mutations)
     for i in range(2 if q else len(IDENTS)):
         for which in ("sel", "id"):
@@ -409,6 +410,49 @@ def work(item, ctx):
                 frontier = nxt
                 res.counters["bfs_states"] = len(seen)
             res.states = set((item[1], k) for k in seen)
+        elif item[0] == "activate":
+            # the bit timing switch and the other services: a selective sequence that straddles the end of the second switch delay is
+            # answered; a second 'activate bit timing' during a running switch starts no second timer
+            ident = IDENTS[item[1] % len(IDENTS)]
+            nid = [1, 5, 127, 64][item[1] % 4]
+            f = lambda cs, arg=0: bytes([cs]) + (arg & 0xFFFFFFFF).to_bytes(4, "little") + bytes(3)
+            for scen in ("straddle-selective", "straddle-identify", "twice"):
+                sim = S.Sim(exe, make_cfg(ident, nid))
+                try:
+                    d = [5, 10, 20][item[1] % 3]
+                    for rq in (bytes([4, 1, 0, 0, 0, 0, 0, 0]), bytes([19, 0, 4, 0, 0, 0, 0, 0]), bytes([21]) + d.to_bytes(2, "little") + bytes(5)):
+                        sim.rx(0x7E5, rq)
+                    sim.cmd("tick %d" % (d + 1))               # first delay over: the CAN controller runs again
+                    res.evals += 1
+                    if scen == "twice":
+                        sim.rx(0x7E5, bytes([21]) + d.to_bytes(2, "little") + bytes(5))
+                        sim.cmd("tick %d" % (4 * d + 5))
+                        sim.rx(0, bytes([1, nid]))
+                        sim.cmd("tick %d" % (4 * d + 5))
+                        mode, occ = int(sim.ret("getmode")[0]), sim.occ()
+                        if mode != 3 or occ["lss"] != 0:
+                            res.violation("c18/activate/twice", "identity %r: 'activate bit timing' repeated during the running switch, then NMT start: NMT mode %d (reference 3), %d LSS timer(s) still running" % (
+                                ["%x" % i for i in ident], mode, occ["lss"]), sim=sim)
+                            return res
+                    else:
+                        sim.rx(0x7E5, bytes([4, 0, 0, 0, 0, 0, 0, 0]))
+                        sel = scen == "straddle-selective"
+                        frames = [f(64 + k, ident[k]) for k in range(4)] if sel else [f(70 + k, [ident[0], ident[1], ident[2], ident[2], ident[3], ident[3]][k]) for k in range(6)]
+                        cut = len(frames) // 2
+                        for fr in frames[:cut]:
+                            sim.rx(0x7E5, fr)
+                        sim.cmd("tick %d" % (d + 1))           # the second delay ends in the middle of the sequence
+                        ans = []
+                        for fr in frames[cut:]:
+                            ans += [x[3] for x in S.txs(sim.rx(0x7E5, fr)) if x[1] == 0x7E4]
+                        if [a[:1] for a in ans] != [bytes([0x44 if sel else 0x4F])]:
+                            res.violation("c18/activate/" + scen, "identity %r: matching %s sequence around the end of the bit timing switch answered %r, reference one %s" % (
+                                ["%x" % i for i in ident], "selective" if sel else "identify", [a.hex() for a in ans], "44h" if sel else "4Fh"), sim=sim)
+                            return res
+                    res.nt("activate", scen, item[1])
+                    res.counters["activate_scenarios"] += 1
+                finally:
+                    sim.close()
         elif item[0] == "nearmiss":
             ident = IDENTS[item[1]]
             nid = [1, 5, 127, 64][item[1]]
